@@ -80,13 +80,18 @@ Import ListNotations.
 """
 
 
+def scratch_tag():
+    """runs against a scratch copy of the repository use their own generated-data / case directories"""
+    return "" if os.path.realpath(vlib.REPO) == "/repo" else "-" + vlib.sha(os.path.realpath(vlib.REPO))[:8]
+
+
 def coqc_gen(gdir, name, timeout=300):
     return vlib.sh(["coqc", "-Q", vlib.COQ, "MT", "-Q", gdir, "C16Gen", name + ".v"], cwd=gdir, timeout=timeout)
 
 
 def generated_checks(ctx):
     """returns (translation, {theorem: (ok, log)}, failing_names)"""
-    gdir = os.path.join(ctx.dir, "gen")
+    gdir = os.path.join(ctx.dir, "gen" + scratch_tag())
     shutil.rmtree(gdir, ignore_errors=True)
     os.makedirs(gdir)
     tr = T.translate(gdir)
@@ -144,7 +149,20 @@ def build_all(ctx):
     ld = stable_lib(ctx, "LD")
     dl = stable_lib(ctx, "DL")
     ldnp = stable_lib(ctx, "LD", srcs=vlib.COMMON_SRCS + ["myth_wrap_malloc.c", "myth_wrap_socket.c"], tag="-np")
-    bdir = os.path.join(ctx.dir, "bin")
+    # content-addressed: checks against scratch copies of the repository run concurrently with this one
+    key = vlib.sha(os.path.basename(ld), os.path.basename(dl), os.path.basename(ldnp), vlib.file_sha(hsrc), vlib.file_sha(opts),
+                   vlib.file_sha(os.path.join(vlib.VERIF, "harness", "c16_static_init.c")))[:14]
+    bdir = os.path.join(ctx.dir, "bin", key)
+    bins = {"plain": os.path.join(bdir, "prog_plain"), "ld": os.path.join(bdir, "prog_ld"),
+            "so": os.path.join(bdir, "libmyth-dl.so"), "unit": os.path.join(bdir, "si_unit")}
+    with vlib.Lock("c16-bin-" + key):
+        if os.path.exists(os.path.join(bdir, ".complete")):
+            return bins
+        return build_into(bdir, bins, hsrc, opts, ld, dl, ldnp)
+
+
+def build_into(bdir, bins, hsrc, opts, ld, dl, ldnp):
+    shutil.rmtree(bdir, ignore_errors=True)
     os.makedirs(bdir, exist_ok=True)
     plain = vlib.cc(os.path.join(bdir, "prog_plain"), [hsrc], flags=["-O1", "-g", "-w"], libs=["-lpthread"])
     if not os.path.exists(opts):
@@ -159,7 +177,9 @@ def build_all(ctx):
     unit = vlib.cc(os.path.join(bdir, "si_unit"), [os.path.join(vlib.VERIF, "harness", "c16_static_init.c")],
                    flags=vlib.lib_cflags("LD") + ["-O1", "-g", "@" + opts],
                    libs=[os.path.join(ldnp, "libmyth.a"), "-lpthread", "-ldl", "-lrt"])
-    return {"plain": plain, "ld": prog_ld, "so": so, "unit": unit}
+    open(os.path.join(bdir, ".complete"), "w").write("ok")
+    vlib.prune_cache(os.path.dirname(bdir), keep=6)
+    return bins
 
 
 def configs(thorough):
@@ -248,16 +268,16 @@ def gen_scene(r, noyield, big):
         for _ in range(t):
             ops = []
             for _ in range(r.rng(1, 5)):
-                o = r.choice(["m", "m", "m", "t", "d", "s", "S", "y", "u", "n"])
-                if noyield and o in ("t", "y", "u", "n"):
+                o = r.choice(["m", "m", "m", "t", "d", "s", "S", "y", "Y", "u", "n"])
+                if noyield and o in ("t", "y", "Y", "u", "n"):
                     o = "m"
                 n = r.choice([1, 3, 20, 100, 300] + ([1000] if big else []))
                 if o in ("m", "t", "d"):
                     ops.append("%s%d:%d" % (o, r.below(nm), n if o != "d" else min(n, 100)))
                 elif o in ("s", "S"):
                     ops.append("%s:%d" % (o, n))
-                elif o == "y":
-                    ops.append("y")
+                elif o in ("y", "Y"):
+                    ops.append(o)
                 elif o == "u":
                     ops.append("u%d" % r.choice([0, 1, 50, 300]))
                 else:
@@ -289,22 +309,37 @@ def gen_scene(r, noyield, big):
         t = r.rng(1, 6)
         return "detach %d %s" % (t, "".join(r.choice("acs") for _ in range(t)))
     if kind == "ids":
-        return "ids %d" % r.rng(1, 6)
+        return "ids %d" % r.choice([1, 2, 3, 4, 5, 6, 9, 14])
     t = r.rng(1, 4)
-    return "sleep %d %s" % (t, " ".join(str(r.choice([0, 1, 100, 700, 1500])) for _ in range(t)))
+    specs = []
+    for _ in range(t):
+        us = r.choice([0, 1, 100, 700, 1500, 2300, 3700, 5100, 9300, 13700, 22100, 29900])
+        rep = 1 if us > 6000 else r.choice([1, 2, 4])
+        specs.append("%s%d%s" % (r.choice(["u", "n", ""]), us, "x%d" % rep if rep > 1 else ""))
+    if big and r.chance(1, 6):
+        specs[0] = "a%d" % r.choice([10, 20, 30])        # crosses a wall-clock second (waits for it: up to 1 s)
+    return "sleep %d %s" % (t, " ".join(specs))
 
 
 def gen_program(r, big=False):
     noyield = r.chance(1, 4)
     lines = ["noyield"] if noyield else []
     if r.chance(1, 3):          # the main thread alone first: possibly the very first use of the library
-        ops = list("bsBSmltdpokyui")
+        ops = list("bsBSmltdpokyYui")
         if noyield:
-            ops = [o for o in ops if o not in "yu"]
+            ops = [o for o in ops if o not in "yYu"]
         r.shuffle(ops)
         lines.append("solo " + "".join(ops[:r.rng(1, len(ops))]))
+    dtors = 1
     for i in range(r.rng(2, 6)):
-        lines.append(gen_scene(r, noyield, big))
+        sc = gen_scene(r, noyield, big)
+        if sc.startswith("keys "):
+            dtors += bin(int(sc.split(";")[0].split()[3])).count("1")
+            if dtors > 250:      # the harness has 256 distinct destructor functions
+                continue
+        lines.append(sc)
+    if big and r.chance(1, 150):
+        lines.append("sleep 1 s1")       # sleep(1): thorough tier only, rarely
     lines.append("exit %d %d" % (r.choice([0, 0, 1, 7, 42, 255]), r.rng(0, 2)))
     return "\n".join(lines) + "\n"
 
@@ -369,17 +404,24 @@ def oracle(text):
                 th, key, v = map(int, e.split())
                 final[(th, key)] = v
                 nset += 1
-            calls = [v for (th, key), v in final.items() if v != 0 and (dm >> key) & 1]
-            out.append("S%d keys dtor_calls=%d dtor_sum=%d fresh=%d match=%d" % (sno, len(calls), sum(calls), t * k + k, nset))
-            out.append("S%d keys.null_dtor_calls=0" % sno)
+            calls = sorted((th, key, v) for (th, key), v in final.items() if v != 0 and (dm >> key) & 1)
+            out.append("S%d keys fresh=%d match=%d dtors=%s" % (sno, t * k + k, nset, ",".join("%d:%d:%d" % c for c in calls)))
+            out.append("S%d keys.null_dtor_calls=" % sno)
         elif kw == "detach":
             t = int(rest.split()[0])
             out.append("S%d detach done=%d sum=%d" % (sno, t, sum((i + 1) ** 2 for i in range(t))))
         elif kw == "ids":
             t = int(rest)
             out.append("S%d ids self=%d match=%d notmain=%d distinct=%d" % (sno, t, t, t, t * (t - 1) // 2))
+            out.append("S%d ids.os_threads=%d users=%d" % (sno, t + 1, t))
         elif kw == "sleep":
-            out.append("S%d sleep ok=%d" % (sno, int(rest.split()[0])))
+            w = rest.split()
+            n = 0
+            for i in range(int(w[0])):
+                m = re.match(r"^[unsa]?\d+(?:x(\d+))?$", w[1 + i]) if 1 + i < len(w) else None
+                rep = int(m.group(1)) if m and m.group(1) else 1
+                n += rep if 1 <= rep <= 50 else 1
+            out.append("S%d sleep ok=%d of=%d" % (sno, n, n))
         elif kw == "solo":
             out.append("S%d solo ok=%d of=%d" % (sno, len(rest.strip()), len(rest.strip())))
         else:
@@ -388,15 +430,121 @@ def oracle(text):
     return "\n".join(out) + "\n", status
 
 
-NULL_DTOR = re.compile(r"^S\d+ keys\.null_dtor_calls=\d+$")
+NULL_DTOR = re.compile(r"^S(\d+) keys\.null_dtor_calls=(.*)$")
+KEY_IDS = re.compile(r"^S(\d+) keys\.ids=(.*)$")
+OS_THREADS = re.compile(r"^S(\d+) ids\.os_threads=(-?\d+) users=(\d+)$")
+LEAF = 16          # entries of a leaf of the MassiveThreads TLS tree (src/myth_tls.h), as in the listed finding
+HELPERS = 0        # OS threads of the library besides its workers (measured on the unchanged tree: none)
 
 
 def split_known(stdout):
-    """(text without the NULL-value destructor lines, those lines)"""
-    keep, nd = [], []
+    """(text without the configuration-specific lines, {scene: null-dtor entries}, {scene: key values},
+    [(scene, os threads, user threads)])"""
+    keep, nd, ids, osl = [], {}, {}, []
     for l in stdout.split("\n"):
-        (nd if NULL_DTOR.match(l) else keep).append(l)
-    return "\n".join(keep), nd
+        m = NULL_DTOR.match(l)
+        if m:
+            nd[int(m.group(1))] = [x for x in m.group(2).split(",") if x]
+            continue
+        m = KEY_IDS.match(l)
+        if m:
+            ids[int(m.group(1))] = [int(x) for x in m.group(2).split(",") if x]
+            continue
+        m = OS_THREADS.match(l)
+        if m:
+            osl.append((int(m.group(1)), int(m.group(2)), int(m.group(3))))
+            continue
+        keep.append(l)
+    return "\n".join(keep), nd, ids, osl
+
+
+def keys_scenes(text):
+    """{scene number: (dm, {thread: set of key indices stored under (any value)}, {(thread, key): final value})}"""
+    res, sno = {}, 0
+    for raw in text.split("\n"):
+        line = raw.split("#")[0].strip()
+        if not line:
+            continue
+        kw, _, rest = line.partition(" ")
+        if kw in ("noyield", "exit"):
+            continue
+        sno += 1
+        if kw == "keys":
+            parts = rest.split(";")
+            k, t, dm = map(int, parts[0].split())
+            touched, final = {}, {}
+            for e in parts[1:]:
+                if e.strip():
+                    th, key, v = map(int, e.split())
+                    touched.setdefault(th, set()).add(key)
+                    final[(th, key)] = v
+            res[sno] = (dm, touched, final)
+    return res
+
+
+def null_dtor_verdict(text, nd, ids):
+    """the listed finding C16-null-destructor-calls, exactly: at thread exit MassiveThreads calls every destructor of
+    a 16-entry leaf of the key space under which the thread stored something, also when the value is NULL.
+    Returns (number of calls covered by the finding, [what goes beyond it])"""
+    ks, covered, beyond = keys_scenes(text), 0, []
+    for sno, ents in nd.items():
+        if not ents:
+            continue
+        if sno not in ks or sno not in ids:
+            beyond.append("S%d: NULL-value destructor calls in a scene without keys" % sno)
+            continue
+        dm, touched, final = ks[sno]
+        kv = ids[sno]
+        seen = set()
+        for e in ents:
+            w = e.split(":")
+            try:
+                t = int(w[0])
+                old = w[1].startswith("x")
+                key = int(w[1][1:]) if old else int(w[1])
+            except (ValueError, IndexError):
+                beyond.append("S%d: unparsable entry %s" % (sno, e))
+                continue
+            leaves = set(kv[k] // LEAF for k in touched.get(t, ()) if k < len(kv))
+            if e in seen:
+                beyond.append("S%d: destructor of key %s called twice with NULL by thread %d" % (sno, w[1], t))
+            elif t < 0:
+                beyond.append("S%d: NULL-value destructor call %s by an unknown thread" % (sno, e))
+            elif old:
+                # the destructor registered for a key that has been DELETED (an earlier scene), key value `key`
+                if key // LEAF not in leaves:
+                    beyond.append("S%d: thread %d: destructor of deleted key %d called though its leaf was never touched" % (sno, t, key))
+                else:
+                    covered += 1
+            elif not (0 <= key < len(kv)) or not (dm >> key) & 1:
+                beyond.append("S%d: NULL-value call attributed to key %d which has no destructor" % (sno, key))
+            elif final.get((t, key), 0) != 0:
+                beyond.append("S%d: thread %d key %d: destructor called with NULL although the value is %d" % (sno, t, key, final[(t, key)]))
+            elif kv[key] // LEAF not in leaves:
+                beyond.append("S%d: thread %d key %d (value %d): NULL-value destructor call though the thread stored nothing in that leaf"
+                              % (sno, t, key, kv[key]))
+            else:
+                covered += 1
+            seen.add(e)
+    return covered, beyond
+
+
+def os_threads_verdict(cfg, osl):
+    """None, or why the OS-thread counts show that the calls did not go where the configuration says"""
+    name, which, env = cfg
+    wrapped = which != "plain" and env.get("MYTH_WRAP_PTHREAD") == "1"
+    for sno, n, users in osl:
+        if wrapped:
+            want = int(env["MYTH_NUM_WORKERS"]) + HELPERS
+            if n != want:
+                if n >= users + 1 and users + 1 > want:
+                    return ("redirection not in effect: %d OS threads while %d user threads are alive (S%d); with the calls "
+                            "redirected to MassiveThreads the process has %d (its workers), whatever the number of user threads"
+                            % (n, users, sno, want))
+                return "S%d: %d OS threads with %d user threads alive, expected %d (the workers)" % (sno, n, users, want)
+        elif n != users + 1:
+            return "S%d: %d OS threads with %d user threads alive on the system library, expected %d" % (sno, n, users, users + 1)
+    return None
 
 
 class Stop:
@@ -407,7 +555,7 @@ class Stop:
 def judge_program(bins, cfgs, text, path, stop=None):
     """run a program under every configuration; returns (divergences, known_hits, results)"""
     exp_out, exp_rc = oracle(text)
-    exp_main, exp_nd = split_known(exp_out)
+    exp_main = split_known(exp_out)[0]
     divs, known, results = [], [], {}
     if stop is not None and stop.bad >= STOP_AFTER:
         return divs, known, results
@@ -415,15 +563,28 @@ def judge_program(bins, cfgs, text, path, stop=None):
     for cfg in cfgs:
         if hung >= 1:            # it hangs: one confirmed hang (re-tried with the long timeout) is enough
             break
-        rc, out, err = run_one(bins, cfg, path)
+        for attempt in range(3):
+            rc, out, err = run_one(bins, cfg, path)
+            main, nd, ids, osl = split_known(out)
+            osv = os_threads_verdict(cfg, osl) if rc == exp_rc and main == exp_main else None
+            if osv is None or osv.startswith("redirection"):
+                break                # an exiting thread of an earlier scene may linger: sample again
         results[cfg[0]] = {"rc": rc, "stdout": out, "stderr": err}
-        main, nd = split_known(out)
+        div = lambda why: divs.append({"config": cfg[0], "exit": rc, "expected_exit": exp_rc, "stdout": out[-3000:],
+                                       "expected_stdout": exp_out[-3000:], "stderr": err, "why": why})
         if rc != exp_rc or main != exp_main:
             hung += rc == "timeout"
-            divs.append({"config": cfg[0], "exit": rc, "expected_exit": exp_rc, "stdout": out[-3000:],
-                         "expected_stdout": exp_out[-3000:], "stderr": err})
-        elif nd != exp_nd:
-            known.append({"config": cfg[0], "observed": nd, "expected": exp_nd})
+            div("output / exit status")
+            continue
+        if osv:
+            div(osv)
+            continue
+        covered, beyond = null_dtor_verdict(text, nd, ids)
+        if beyond:
+            div("NULL-value destructor calls beyond the listed finding: " + "; ".join(beyond[:4]))
+        elif covered:
+            known.append({"config": cfg[0], "observed": ["S%d keys.null_dtor_calls=%s" % (k, ",".join(v)) for k, v in sorted(nd.items()) if v],
+                          "expected": ["no NULL-value destructor call"], "calls": covered})
     if divs and stop is not None:
         stop.bad += 1
     return divs, known, results
@@ -492,7 +653,7 @@ def run(ctx):
     n = 60 if not ctx.thorough else 1500
     for i in range(n):
         progs.append(("gen%03d" % i, gen_program(ctx.rng, big=ctx.thorough)))
-    cdir = os.path.join(ctx.dir, "cases")
+    cdir = os.path.join(ctx.dir, "cases" + scratch_tag())
     shutil.rmtree(cdir, ignore_errors=True)
     os.makedirs(cdir)
     jobs = []
@@ -541,11 +702,17 @@ def run(ctx):
     # ---- verdicts ----
     if all_divs:
         name, text, d = min(all_divs, key=lambda x: (len(x[1]), x[0]))      # the smallest diverging program
-        ctx.violation("differential", "program %s: configuration %s diverges from the expected result (exit %s, expected %s); %d diverging run(s) in all"
-                      % (name, d["config"], d["exit"], d["expected_exit"], len(all_divs)),
+        # "redirection not in effect" is the more telling verdict when both kinds occur
+        red = [x for x in all_divs if x[2]["why"].startswith("redirection")]
+        if red:
+            name, text, d = min(red, key=lambda x: (len(x[1]), x[0]))
+        ctx.violation("redirection" if red else "differential",
+                      "program %s: configuration %s diverges from the expected result (%s; exit %s, expected %s); %d diverging run(s) in all"
+                      % (name, d["config"], d["why"][:260], d["exit"], d["expected_exit"], len(all_divs)),
                       {"program": text, "program_name": name, "config": d["config"], "observed": {"exit": d["exit"], "stdout": d["stdout"], "stderr": d["stderr"]},
                        "expected": {"exit": d["expected_exit"], "stdout": d["expected_stdout"]},
-                       "all_diverging": [(nm, dd["config"], dd["exit"]) for nm, _, dd in all_divs[:40]], "level": "process"}, found=True)
+                       "why": d["why"],
+                       "all_diverging": [(nm, dd["config"], dd["exit"], dd["why"][:80]) for nm, _, dd in all_divs[:40]], "level": "process"}, found=True)
     if unit_bad:
         ctx.violation("static-init-unit", "myth_handle_PTHREAD_MUTEX_INITIALIZER under real concurrency: " + unit_bad[0]["out"],
                       {"unit": unit_bad[0], "level": "unit"}, found=True)
@@ -557,8 +724,9 @@ def run(ctx):
     if all_known:
         listed = [f for f in vlib.known_findings("C16") if f.get("id") == KNOWN_NULL_DTOR]
         name, text, k = all_known[0]
-        msg = ("%s destructors called with a NULL value at thread exit (program %s, %s: %s; glibc and the oracle: %s); %d run(s)"
-               % (KNOWN_NULL_DTOR, name, k["config"], " ".join(k["observed"]), " ".join(k["expected"]), len(all_known)))
+        msg = ("%s destructors called with a NULL value at thread exit, only for keys of a 16-entry leaf the thread stored into "
+               "(program %s, %s: %s; glibc and the oracle: none); %d run(s), %d such calls"
+               % (KNOWN_NULL_DTOR, name, k["config"], " ".join(k["observed"])[:160], len(all_known), sum(x[2]["calls"] for x in all_known)))
         if listed:
             ctx.known(msg)
         else:
@@ -601,10 +769,20 @@ def replay(ctx, path):
     exp_out, exp_rc = oracle(text)
     print("program:\n" + text)
     print("expected (oracle): exit %d\n%s" % (exp_rc, exp_out))
+    exp_main = split_known(exp_out)[0]
     for cfg in configs(True):
         rc, out, err = run_one(bins, cfg, p)
-        same = (rc == exp_rc and out == exp_out)
-        print("[%s] exit %s %s" % (cfg[0], rc, "== expected" if same else "DIFFERS"))
-        if not same:
+        main, nd, ids, osl = split_known(out)
+        why = []
+        if rc != exp_rc or main != exp_main:
+            why.append("output / exit status")
+        osv = os_threads_verdict(cfg, osl)
+        if osv:
+            why.append(osv)
+        covered, beyond = null_dtor_verdict(text, nd, ids)
+        why += beyond
+        print("[%s] exit %s %s%s" % (cfg[0], rc, "== expected" if not why else "DIFFERS: " + "; ".join(why),
+                                     " (%d NULL-value destructor calls covered by the listed finding)" % covered if covered else ""))
+        if why:
             print(out + err)
     return 0
